@@ -67,6 +67,7 @@ impl SubCheck for Matches {
             panic_at: None,
             shape: String::new(),
             yield_in_model: false,
+            slow_us: 0,
         };
         let gm = GM::new(&g);
         let props = gm.properties();
